@@ -31,6 +31,11 @@ def decide(run, recs, res, errors, theorems, module):
                                                            "C14_renorm_binary64"], allowed_axioms=STD_FLOAT_AXIOMS)
     if module == "C14":
         broken += standard_proof_obligations(run, "C14f", ["C14_drop_last_rounded", "C14_slice_rounded", "C14_renorm_binary64"], allowed_axioms=STD_FLOAT_AXIOMS)
+        # the fused truncate / filter / shift / normalise in rounded arithmetic (its total is built by additions, then subtractions)
+        broken += standard_proof_obligations(run, "C14g", ["C14_fused_shape", "C14_fused_total_interval", "C14_fused_total_rounded", "C14_fused_sum_rounded",
+                                                           "C14_fused_sum_sharp", "C14_fused_nodrop", "C14_fused_S_pos", "C14_fused_binary64",
+                                                           "C14_fused_err_small_binary64", "C14_fused_float_nonvacuous", "C14_fused_float_nonvacuous_err"],
+                                             allowed_axioms=STD_FLOAT_AXIOMS)
     if res[2]:
         r = by_id[res[2][0]]
         violation(run, {"failing_input": r, "what": "the implementation's output violates the property's specification (holds_on = false)",
